@@ -106,4 +106,5 @@ def run(res, rng, tier, model_ok, replay=None):
 
 
 def check_known(entry):
-    return False
+    io = core.run_cases(core.WV_DEBUG, [entry["case"]], "c01k")[0]
+    return vcdfam.strip_bl(io) != entry["expected"]
